@@ -28,7 +28,7 @@ def generate(tier, seed):
                           "cost": 120 if name in sources.PROTEINS else 5})
     n = 450 if tier == "quick" else 25000
     for k in range(n):
-        cases.append({"kind": "built", "mode": ("subset", "subset", "all", "single", "ghost", "ghost-only", "pair", "pair")[k % 8],
+        cases.append({"kind": "built", "mode": ("subset", "subset", "all", "single", "ghost", "ghost-only", "pair", "pair", "twin")[k % 9],
                       "seed": "%d:b:%d" % (seed, k), "cost": 16})
     for k in range(40 if tier == "quick" else 2500):
         cases.append({"kind": "two-files", "mode": "two-files", "seed": "%d:tf:%d" % (seed, k), "cost": 30})
@@ -106,7 +106,11 @@ def run_case(case, tier):
         recs = sources.no_water(sources.repo_recs(case["file"]))
         desc["file"] = case["file"]
     else:
-        if case["mode"] == "pair" and rng.random() < 0.8:
+        if case["mode"] == "twin":
+            # two consecutive residues of one ionizable type numbered as insertion-code twins: the list names one
+            from .c15 import same_label_twin_cutout
+            recs = [r for r in same_label_twin_cutout(rng) if r.raw is not None or r.alt in (" ", "A")]
+        elif case["mode"] == "pair" and rng.random() < 0.8:
             from .c15 import cluster_cutout
             recs = cluster_cutout(rng)
         elif rng.random() < 0.5:
@@ -148,7 +152,15 @@ def run_case(case, tier):
         # a list that names only residues which do not exist: nothing is to be titrated
         ghosts_only = [g for g in (("Q", 5, " "), (res[0][0], 9990, " "), (res[0][0], res[0][1], "Z" if res[0][2] != "Z" else "Y")) if g not in res]
         text = pdbio.dump(recs)
-        only = obs.run_single(text, ["-i", ",".join(util.res_arg(r) for r in ghosts_only)])
+        if rng.random() < 0.4:
+            # the empty list, as an API user sets it on the options object: nothing is listed either
+            def hook(options):
+                options.titrate_only = []
+            only = obs.run_single(text, [], options_hook=hook)
+            counts["empty_list_api_runs"] = 1
+            classes.append("empty-list-through-the-api")
+        else:
+            only = obs.run_single(text, ["-i", ",".join(util.res_arg(r) for r in ghosts_only)])
         counts["pipeline_runs"] = 1
         counts["ghost_only_runs"] = 1
         if not only.exc:
@@ -159,6 +171,18 @@ def run_case(case, tier):
                         break
         classes.append("mode:ghost-only")
         return util.finish(case, viol, counts, classes, True, desc)
+    if mode == "twin":
+        seen_n = {}
+        for r_ in res:
+            seen_n.setdefault((r_[0], r_[1]), []).append(r_)
+        tw = [v for v in seen_n.values() if len(v) > 1]
+        if tw:
+            pair_ = rng.choice(tw)
+            others = [r_ for r_ in res if r_ not in pair_]
+            L = [rng.choice(pair_)] + rng.sample(others, min(len(others), rng.choice((0, 0, 2))))
+            classes.append("one-twin-listed")
+        else:
+            mode = "single"
     if mode == "pair":
         # one member of a hydrogen-bonded pair of two acids / two bases is listed, its partner is not
         probe = obs.run_single(pdbio.dump(recs), write_pka=False)
@@ -184,7 +208,7 @@ def run_case(case, tier):
             mode = "single"
     if mode == "all":
         L = list(res)
-    elif mode == "pair":
+    elif mode in ("pair", "twin"):
         pass
     elif mode == "single":
         L = [rng.choice(res)]
